@@ -375,7 +375,9 @@ SealedFinalModuloKnown == SealedFinal \/ Weakness = "v0-resplice"
 
 \* one line per adversary token (accepted ones always, rejected ones sampled 1/SampleN)
 ExportForged ==
-    (ExportOn /\ phase = "done" /\ (Accepted \/ SampleN = 1 \/ RandomElement(1..SampleN) = 1)) =>
+    \* accepted tokens are always exported - except, when sampling, the provider variants of the unmodified /
+    \* hint-flipped token, which are sampled like the rejected ones
+    (ExportOn /\ phase = "done" /\ ((Accepted /\ forged.prov[1] = forged.prov[2]) \/ SampleN = 1 \/ RandomElement(1..SampleN) = 1)) =>
         PrintT(<<"FORGED", ToJson([log |-> log, forged |-> forged,
                                    accept |-> (forged.root # NoKey /\ Verify(forged.tok, forged.root)),
                                    accept_legacy |-> AcceptedIn("legacy"), accept_mixed |-> AcceptedIn("mixed"),
